@@ -467,13 +467,15 @@ pub fn gen_program(ch: &mut Choices, curve: Curve, cfg: &GenCfg) -> Program {
                 _ => t - 1,
             }
             .min(cfg.big_gates)
-        } else {
+        } else if profile == 4 || profile == 5 {
             let p = have.next_power_of_two().max(1);
             if profile == 5 {
                 p + 1
             } else {
                 p
             }
+        } else {
+            have
         };
         // an odd run of `allocate` makes the count ambiguous; close it first
         let mut extra = target.saturating_sub(have);
